@@ -105,9 +105,15 @@ def check(ctx):
             C.case(key=('l', seed, beta, n), nontrivial=n > 1, kind='levy')
             # ---------------- tournament
             m_ = C.rng.randint(1, 8)
-            mode = C.rng.choice(['rand', 'ties', 'neg'])
-            fit = [C.rng.uniform(0, 10) if mode == 'rand' else (float(C.rng.choice([1, 2, 3])) if mode == 'ties' else C.rng.uniform(-5, 5))
-                   for _ in range(m_)]
+            mode = C.rng.choice(['rand', 'ties', 'neg', 'near-ties', 'tiny'])
+            if mode == 'near-ties':
+                base_ = C.rng.choice([1250.0, 1.0, -3.5, 1e-3])
+                fit = [base_ * (1 + C.rng.choice([0.0, 1e-9, 3e-6, -2e-7, 1e-12])) for _ in range(m_)]
+            elif mode == 'tiny':
+                fit = [C.rng.uniform(0, 1) * 1e-9 for _ in range(m_)]
+            else:
+                fit = [C.rng.uniform(0, 10) if mode == 'rand' else (float(C.rng.choice([1, 2, 3])) if mode == 'ties' else C.rng.uniform(-5, 5))
+                       for _ in range(m_)]
             nsel = C.rng.randint(0, 6)
             drawn = []
             orig = np.random.choice
